@@ -210,12 +210,15 @@ def _compare(ctx, c, m, m_next, out):
             Lm = float(m.log_likelihood(c['y']))
         ok, d = _close(g[0][1], Lm, scale=1 + abs(Lm))
         rep('logLikMethod', ok, f'model {g[0][1]!r} vs code {Lm!r}: {d}')
-    # E-step
+    # E-step (full covariances: the driver's Cholesky and LAPACK's agree to ~1e-16 * condition number)
+    cs = 1.0
+    if family.endswith('-full'):
+        cs = max(1.0, 1e-4 * float(np.max(np.linalg.cond(np.asarray(m.gaussian.covariance, dtype=np.float64)))))
     post = _flat_kn(fam.predict(m, data), F, K, N)
-    ok, d = _close(g[1].reshape(K, F * N), post, scale=1.0)
+    ok, d = _close(g[1].reshape(K, F * N), post, scale=cs)
     rep('eStep', ok, d)
     # M-step: weights of iterate i+1
-    ok, d = _close(g[2].reshape(K, F * N), _flat_kn(fam.weight(m_next), F, K, N), scale=1.0)
+    ok, d = _close(g[2].reshape(K, F * N), _flat_kn(fam.weight(m_next), F, K, N), scale=cs)
     rep('mWeight', ok, d)
     if family.startswith('gcacgmm'):
         aff, q = m._predict(eu.unit(c['y']), c['e'], affiliation_eps=0.0, inline_permutation_alignment=False)
@@ -458,7 +461,7 @@ def search(ctx):
         if ctx.out_of_time(60):
             break
         ctx.count('search-from-correspondence-disagreement')
-        ctx.run(em_monotone, family=c['family'], y=c['y'], e=None, init=c['init'], opts=c['opts'], iterations=40)
+        ctx.run(em_monotone, family=c['family'], y=c['y'], e=c.get('e'), init=c['init'], opts=c['opts'], iterations=40)
     n = ctx.n(66, 1000)
     for i in range(n):
         if ctx.out_of_time(20):
